@@ -319,6 +319,10 @@ func (n *nodeSim) checkSettled(where string) {
 		if n.idReusedAfterRestart(tr) {
 			continue // reported once under I1
 		}
+		if n.algo == "dtlsr" && tr.via == "deliver" && !tr.dtlsrJudged && tr.reinjected == 0 {
+			tr.dtlsrJudged = true
+			n.dtlsrJudgeUnicast(tr)
+		}
 		// I2 direct delivery
 		if dp := tr.dstPeer(n); dp != 0 && n.connected(dp) && tr.successTo(dp) == nil {
 			since := n.peers[dp].upEpoch
